@@ -3,6 +3,16 @@
 import json, subprocess
 ALL=[f"C{i:02d}" for i in range(1,21)]
 CHECKS={
+ "C15": dict(level="exploration", engine="E1-dfs",
+   technique="deviation-bounded stateless DFS: every single-violation mutation of generated conforming sessions at every frame position, through the real Stream on a scripted transport",
+   text="Each of 17 violation kinds (RSV1-3, reserved opcodes 3-7 and B-F, masked frame, fragmented control frame, control payload 126, oversize frame, oversize message by fragments, continuation without start, data frame inside a fragmented message) is injected at every applicable frame position of every base session within the bounds, under all combinations of up to 2/3 deviations (fragmentation, control frames, extra message, trailing close, cuts, byte-by-byte), through the 4 read APIs inline and deferred; reporting, non-delivery, Close(1002) and write refusal are checked.",
+   note="In-memory transport; maximum message size lowered to 300 so that oversize cases stay small; what the stream does on reads after the reported error is not judged.",
+   design="4/C15"),
+ "C16": dict(level="exploration", engine="E1-dfs",
+   technique="exhaustive enumeration of write-operation sequences x transport behaviours; the complete outbound byte stream is parsed by an independent RFC 6455 parser",
+   text="All sequences of up to 3 operations from a 50-entry menu (Write/AsyncWrite x 8 size classes incl. max and max+1, WriteFrame/AsyncWriteFrame with payload / SetPayload(nil) / no SetPayload, automatic Pong and Close replies, Close/AsyncClose) x 3 transport behaviours (whole+inline, 1 byte per blocking write + deferred async, len-1 + deferred). Frame pooling is made deterministic (single-P worker processes, GC only between executions) so reuse after longer and shorter frames is really exercised.",
+   note="Partial writes inside the AsyncAdapter are covered by C02/C17; mask keys are random and only their presence and effect are checked.",
+   design="4/C16"),
  "C06": dict(level="exploration", engine="E1-dfs",
    technique="deviation-bounded stateless DFS over generated sessions against the real Stream on a scripted in-memory transport; wire bytes from an independent encoder",
    text="Every session within the bounds (<=2/3 messages, 8 payload length classes up to the configured maximum, every fragmentation into <=3 fragments incl. empty ones, ping/pong in any gap, a cut at any byte position or byte-by-byte delivery; all combinations of up to 2 (quick) / 3 (thorough) such deviations) is pushed through NextFrame, AsyncNextFrame, NextMessage and AsyncNextMessage (inline and deferred completion) and the delivered sequence is compared with the generated one.",
